@@ -257,12 +257,23 @@ def campaign(c):
                 elif kind == 4 and r.chance(1, 3): i = dict(stem=None, src=None)
                 ins.append(i)
             keep = r.chance(1, 3)
-            impl, model = batch.compare(c, ins, keep=keep, what='batch')
+            # every sixth batch: an output directory in which nothing can be created (each input gets its diagnostic, none is skipped)
+            nodir = r.choice(['missing', 'deep', 'under-file', 'under-proc']) if j % 6 == 5 else False
+            if nodir: c.count('batch-outdir:' + nodir)
+            impl, model = batch.compare(c, ins, keep=keep, outdir_missing=nodir, what='batch')
             if 'panic' in impl['reports']:
                 c.violation('total:panic:batch', 'a batch run panicked: %s' % impl['stderr'][-200:], dict(out=impl['stdout'][-400:]))
             elif (impl['exit'] == 0) != all(x == 'ok' for x in impl['reports']) or len(impl['reports']) != len(ins):
                 c.violation('total:batch-status', 'exit status %s does not reflect the reports %s' % (impl['exit'], impl['reports']), dict(out=impl['stdout'][-400:]))
             c.case(('batchrun', j), dict(kind='batch-model', n=len(ins), keep=keep, reports=impl['reports']) if j % 5 == 0 else None)
+        for nodir in ('missing', 'deep', 'under-file', 'under-proc'):
+            for ins in ([dict(stem='a', src=good)], [dict(stem='a', src=good), dict(stem='bad', src=b'let x = ;\n'), dict(stem='z', src=good)]):
+                impl, model = batch.compare(c, ins, outdir_missing=nodir, what='batch')
+                if 'panic' in impl['reports'] or impl['exit'] not in (0, 1):
+                    c.violation('total:panic:batch-outdir', 'output directory %s: the run died (exit %s): %s' % (nodir, impl['exit'], impl['stderr'][-200:]), dict(outdir=nodir, n=len(ins)))
+                elif len(impl['reports']) != len(ins):
+                    c.violation('total:batch-status', 'output directory %s: %d inputs, %d reports' % (nodir, len(ins), len(impl['reports'])), dict(outdir=nodir, out=impl['stdout'][-400:]))
+                c.case(('batch-outdir', nodir, len(ins)), dict(kind='batch-outdir', outdir=nodir, reports=impl['reports']))
         # path without a file name, missing file
         for args in (['..'], ['/'], [os.path.join(d, 'nope.rsyn')], ['']):
             p = subprocess.run([core.CLI, '--out-dir', d] + args, capture_output=True, timeout=60, cwd=d)
